@@ -111,6 +111,7 @@ pub struct Agg {
     pub stalled: u64,
     pub thread_exits_joined: u64,
     pub late_starts: u64,
+    pub clock_jumps: u64,
     pub cold_runs: u64,
     pub cold_init_by_thread: BTreeMap<i64, u64>,
     pub ext_blocked: u64,
@@ -173,6 +174,7 @@ impl Agg {
         self.stalled += r.stalled;
         self.thread_exits_joined += r.thread_exits_joined;
         self.late_starts += r.late_starts;
+        self.clock_jumps += r.clock_jumps;
         if r.cold {
             self.cold_runs += 1;
             *self.cold_init_by_thread.entry(r.cold_init_thread).or_insert(0) += 1;
@@ -867,6 +869,7 @@ pub fn check(tier_name: &str, base_seed: u64) -> Outcome {
                 "F9_stalled_caller": a.stalled,
                 "F10_caller_thread_exits_joined_before_token_moves_on": a.thread_exits_joined,
                 "F10_late_starter_after_another_thread_exited": a.late_starts,
+                "F11_simulated_clock_jumps": a.clock_jumps,
             },
             "harness_probes": {
                 "calls_overlapping_on_same_object": a.same_obj_overlap,
@@ -910,7 +913,7 @@ pub fn check(tier_name: &str, base_seed: u64) -> Outcome {
             "miri": miri,
             "components": {
                 "real": ["regexml parser/optimiser/matcher/iterators (built from /repo working tree, feature verif-hooks)", "BLOCK_LOOKUP with std::sync::OnceLock", "icu_casemap / icu_properties / icu_collections with baked data", "ahash hashing code", "std::thread caller threads, thread-local storage", "glibc malloc", "process start (cold state)"],
-                "owned_by_simulator": ["which caller thread runs (token scheduler at hook sites and operation boundaries)", "ahash per-map key material (set_random_source) and per-process keys (--cfg fuzzing)", "caller crashes (unwind at a chosen hook step)", "logical clock (hook hits + scheduler events)"],
+                "owned_by_simulator": ["the clock as seen by caller threads (clock_gettime defined by the harness executable: real time + simulator-owned offset; the pinned library reads no clock)", "which caller thread runs (token scheduler at hook sites and operation boundaries)", "ahash per-map key material (set_random_source) and per-process keys (--cfg fuzzing)", "caller crashes (unwind at a chosen hook step)", "logical clock (hook hits + scheduler events)"],
                 "stubbed": [],
                 "absent_in_code_base": ["network", "disk", "timers/clocks"],
             },
